@@ -579,8 +579,8 @@ func (o *oracleRun) paramUpdate(h uint64, fids []uint64) {
 			running = append(running, f)
 		}
 	}
-	send := func(kind string, p map[string]string, tf *oracletypes.TokenFeeder) *ops.Step {
-		st := w.CosmosStep(kind, o.paramUser, sim.CosmosTxOpts{}, p, &oracletypes.MsgUpdateParams{Authority: o.paramUser.Acc.String(), Params: oracletypes.Params{TokenFeeders: []*oracletypes.TokenFeeder{tf}}})
+	send := func(kind string, p map[string]string, tfs ...*oracletypes.TokenFeeder) *ops.Step {
+		st := w.CosmosStep(kind, o.paramUser, sim.CosmosTxOpts{}, p, &oracletypes.MsgUpdateParams{Authority: o.paramUser.Acc.String(), Params: oracletypes.Params{TokenFeeders: tfs}})
 		if o.res != nil {
 			o.res.Counters[fmt.Sprintf("%s|%s|ack=%v", kind, p["variant"], st.Ack)]++
 		}
@@ -643,7 +643,17 @@ func (o *oracleRun) paramUpdate(h uint64, fids []uint64) {
 			}
 		}
 	}
-	st := send("param_feeder_end", map[string]string{"variant": variant, "feeder": fmt.Sprint(f.id), "end": fmt.Sprint(end)}, &oracletypes.TokenFeeder{TokenID: f.token, EndBlock: end})
+	tfs := []*oracletypes.TokenFeeder{{TokenID: f.token, EndBlock: end}}
+	if len(running) > 1 && r.Intn(4) == 0 {
+		// a second entry in the same message that is refused: the whole update has to be without effect, although the
+		// first entry was already applied to the handler's working copy
+		g := running[r.Intn(len(running))]
+		if g != f {
+			variant += "+second-entry-refused"
+			tfs = append(tfs, &oracletypes.TokenFeeder{TokenID: g.token, EndBlock: h})
+		}
+	}
+	st := send("param_feeder_end", map[string]string{"variant": variant, "feeder": fmt.Sprint(f.id), "end": fmt.Sprint(end)}, tfs...)
 	if st.Ack {
 		f.end = end
 	}
